@@ -18,8 +18,20 @@ RACE_OVERLAY["core/executors/verif_c11_free_test.go"] = os.path.join(
     vlib.HARNESS, "overlay", "executors", "verif_c11_free_test.go")
 
 F6_ID = "F6-wait-skips-handed-over-batch"
-# The model that the implementation is compared with: False = the code as it is.
-PATCHED = False
+
+
+def _patched_source():
+    """Which LTS variant the tree under test is compared with: the F6 repair (flusher enters the
+    execution before giving up inflight; Wait blocks on inflightCond until inflight == 0) is
+    recognised by its condition variable; anything else is compared with the unpatched LTS."""
+    try:
+        src = open(os.path.join(vlib.REPO, "core", "executors", "periodicalexecutor.go")).read()
+    except OSError:
+        return False
+    return "inflightCond" in src
+
+
+PATCHED = _patched_source()
 
 
 def drain_ops(case):
@@ -316,6 +328,29 @@ class C11(Property):
             fs.append("F6_wait_early")
         fs.append("steps<=%d" % (10 * (1 + len(steps) // 10)))
         return fs
+
+    # ---- thorough tier: free-running -race monitor (atomicity assumption, DESIGN §3.3) ----
+    def extra(self, ctx):
+        if ctx.tier != "thorough":
+            return []
+        rc, out, res = vlib.go_test_overlay("./core/executors", RACE_OVERLAY, run="TestVerifC11Free$", cases=[],
+                                            tag="c11free", timeout=900, race=True,
+                                            env={"VERIF_SEED": str(ctx.seed)})
+        fails = []
+        if "DATA RACE" in out:
+            fails.append({"what": "data race in core/executors under the free-running monitor",
+                          "replay": {"output": out[-3000:]}})
+        rounds = res[0] if res and isinstance(res[0], list) else []
+        if rc != 0 and not fails:
+            raise ExecError("c11 free-running monitor rc=%s: %s" % (rc, out[-2000:]))
+        if not rounds and not fails:
+            raise ExecError("c11 free-running monitor produced no result: %s" % out[-1000:])
+        for r in rounds:
+            if r.get("dup") or r.get("missing") or r.get("unknown"):
+                fails.append({"what": "free run: tasks executed twice %s / never %s / unknown %s"
+                                      % (r.get("dup"), r.get("missing"), r.get("unknown")), "replay": r})
+        ctx.notes.append("free-running -race monitor: %d rounds x 450 tasks, %d failing" % (len(rounds), len(fails)))
+        return fails[:3]
 
     def describe_failure(self, case, obs):
         if obs.get("err"):
